@@ -14,7 +14,7 @@ import (
 // then DeleteRange over a grid of (from, to), followed by continuation appends and restarts.
 func TestC08(t *testing.T) {
 	rng := emit.NewRand(emit.Seed())
-	w := emit.NewWriter("Model.Store Model.StoreSpec Oracle.StoreCase", "scase", "chk_store")
+	w := emit.NewWriter("Model.Store Model.StoreSpec Oracle.StoreCase Oracle.C14", "case14", "chk14")
 	w.PerShard(40)
 	w.Rule = "stores built by 1..4 random appends (batch sizes above and below the number of headers, so flushed and unflushed headers mix), " +
 		"then one DeleteRange(from,to) from a grid over [0,Head+2]^2 (thorough: the complete grid for stores of <= 8 headers), then continuation " +
@@ -38,7 +38,7 @@ func TestC08(t *testing.T) {
 			}
 		}
 		res := storeh.Run(t, rng, cfg, build+1+rng.Intn(8), gen)
-		w.Add(res.Term, res.Descr, class+fmt.Sprint(res.Descr["ops"]), res.DelOK > 0)
+		w.Add("CSeq ("+res.Term+")", res.Descr, class+fmt.Sprint(res.Descr["ops"]), res.DelOK > 0)
 		w.Count("batch", fmt.Sprint(cfg.Batch))
 		w.Count("datastore_flavour_ctxds", fmt.Sprint(cfg.CtxDS))
 		w.Count("deletes_ok", fmt.Sprint(res.DelOK))
@@ -70,6 +70,42 @@ func TestC08(t *testing.T) {
 			p = &plan{uint64(rng.Intn(14)), uint64(rng.Intn(16))}
 		}
 		one(cfg, 1+rng.Intn(4), p, "rand/")
+	}
+	// ranges reaching below the tail / above the head of a chain that has detached headers
+	// stored around it (headers appended across a gap, below the tail or above the head)
+	for _, a := range []uint64{4, 9} {
+		for _, d := range []uint64{1, a - 2} {
+			b := a + 6
+			for _, del := range [][2]uint64{{d + 1, b + 1}, {d, b + 1}, {d + 1, b}, {a, b + 3}, {a - 1, a + 2}} {
+				cfg := cfgOf(24)
+				chain := make([]uint64, 0, 8)
+				for h := a; h <= b; h++ {
+					chain = append(chain, h)
+				}
+				ops := []storeh.Op{storeh.A(chain...), storeh.A(d), storeh.A(b + 2), storeh.D(del[0], del[1]), storeh.A(b + 1), storeh.O()}
+				res := storeh.Run(t, rng, cfg, len(ops), storeh.Scripted(ops))
+				w.Add("CSeq ("+res.Term+")", res.Descr, fmt.Sprintf("detached/%d/%d/%v/", a, d, del)+fmt.Sprint(cfg.Batch), true)
+				w.Count("detached_header_scenarios", "1")
+			}
+		}
+	}
+	// the parallel deletion path with a failing handler and the retry (relational oracle)
+	np := 6
+	if emit.Thorough() {
+		np = 60
+	}
+	for i := 0; i < np; i++ {
+		cfg := cfgOf(30)
+		if cfg.NH == 0 {
+			cfg.NH = 1
+		}
+		cfg.CtxDS = false
+		k := uint64(12 + rng.Intn(16))
+		to := uint64(6 + rng.Intn(int(k)-6))
+		f := storeh.Fail{Handler: rng.Intn(cfg.NH), Height: uint64(1 + rng.Intn(int(to)-1)), Panic: rng.Chance(30)}
+		term, d := storeh.RunPar(t, rng, cfg, k, to, f)
+		w.Add(term, d, fmt.Sprint(d), true)
+		w.Count("parallel_path", "1")
 	}
 	if err := w.Flush(); err != nil {
 		t.Fatal(err)
